@@ -24,6 +24,7 @@
    missing output directory, canonicalize) is PathDir.extract_prologue and the commands behind it are in
    CliExtractOut.v.
    Definitions only; proofs in CliProofs.v. *)
+From MLA Require Import Limit.
 From MLA Require Import Base Stream Blocks Writer Reader RoundTripWriter RoundTripReader CompLayer EncLayer Format Ecies Archive Path Tar.
 From Coq Require Import Permutation.
 From Coq Require Strings.String.
@@ -69,6 +70,7 @@ Definition create_ops (files : list (bytes * bytes)) : list wop :=
 
 Section Cli.
   Variables CHUNK TAG CIPHERBUF BLOCK LIMIT FNMAX CACHE : N.
+  Local Hint Extern 0 Limit => exact LIMIT : typeclass_instances.
   Variables TS TC TA TE : N.
   Variable H : bytes -> bytes.
   Variable order : footer -> footer.
@@ -322,6 +324,7 @@ End Cli.
 (* ---------- vocabulary of the statements about created archives ---------- *)
 Section CliSpec.
   Variables CHUNK TAG CIPHERBUF BLOCK LIMIT FNMAX : N.
+  Local Hint Extern 0 Limit => exact LIMIT : typeclass_instances.
   Variables TS TC TA TE : N.
   Variable H : bytes -> bytes.
   Variable order : footer -> footer.
